@@ -293,3 +293,40 @@ def translate_check_prefix(params, lines):
             continue
         stopped = True
     return "{| nparams := %d; body := [%s]; ret := Cst 0; retw := 1 |}" % (len(slots), "; ".join(body)), slots, None
+
+
+def translate_call_operand(params, lines, callee, argidx):
+    """The straight-line integer computation that produces operand `argidx` of the first call whose
+    callee name contains `callee` (e.g. MakeSlice): the function's integer parameters are the
+    environment, the body is cut after the instruction defining the operand (later instructions
+    cannot influence it; no assert may precede the call).  Returns (term, None) or (None, reason)."""
+    cut = None
+    for i, ln in enumerate(lines):
+        if "call" in ln and callee in ln:
+            cut = i
+            break
+    if cut is None:
+        return None, "no call to " + callee
+    m = re.search(r"\((.*)\)\s*$", lines[cut].strip())
+    if not m:
+        return None, "call syntax"
+    args = [a.strip() for a in m.group(1).split(",")]
+    if argidx >= len(args):
+        return None, "operand index"
+    am = re.fullmatch(r"(i\d+) (\S+)", args[argidx])
+    if not am:
+        return None, "operand " + args[argidx]
+    term, why = translate(params, [l for l in lines[:cut] if l.strip()] + ["  ret %s %s" % (am.group(1), am.group(2))])
+    if term is None:
+        return None, why
+    # cut the body after the definition of the returned value
+    mret = re.search(r"ret := Val (\d+)", term)
+    mnp = re.search(r"nparams := (\d+)", term)
+    if mret and mnp:
+        keep = int(mret.group(1)) - int(mnp.group(1)) + 1
+        mb = re.search(r"body := \[(.*)\]; ret", term)
+        instrs = [x for x in mb.group(1).split("; ") if x] if mb.group(1) else []
+        if any(x.startswith("IAssert") for x in instrs):
+            return None, "assert before the call"
+        term = term[:mb.start(1)] + "; ".join(instrs[:max(keep, 0)]) + term[mb.end(1):]
+    return term, None
